@@ -4,7 +4,7 @@ import glob, json, os, re
 V = os.path.dirname(os.path.dirname(os.path.abspath(__file__)))
 print("| seeded change | files | what it breaks (short) | caught by | first violated clause |")
 print("|---|---|---|---|---|")
-for d in sorted(glob.glob(os.path.join(V, "seeded", "*"))):
+for d in sorted(x for x in glob.glob(os.path.join(V, "seeded", "*")) if os.path.isdir(x)):
     m = json.load(open(os.path.join(d, "meta.json")))
     det = m.get("detection", {})
     first = det.get("first") or ""
